@@ -8,7 +8,7 @@ SPEC = os.path.join(ROOT, "spec")
 HARNESS = os.path.join(ROOT, "harness")
 WORK = os.path.join(ROOT, "work")
 REPO = "/repo"
-GUARD_FLAGS = "--cfg fast_qr_verif --check-cfg cfg(fast_qr_verif)"
+GUARD_FLAGS = "--cfg fast_qr_verif --check-cfg cfg(fast_qr_verif) --check-cfg cfg(fast_qr_verif_wasm_only)"
 NCPU = os.cpu_count() or 8
 
 
@@ -44,6 +44,9 @@ def build_harness(kind):
         if kind == "hooked":
             env["RUSTFLAGS"] = GUARD_FLAGS
             cmd += ["--features", "hooks"]
+        elif kind == "wasm":      # host build of wasm.rs only: survives a refactor that breaks the stage re-exports of src/verif.rs
+            env["RUSTFLAGS"] = GUARD_FLAGS + " --cfg fast_qr_verif_wasm_only"
+            cmd += ["--features", "wasmonly"]
         t0 = time.time()
         rc, out = sh(cmd, 1800, env=env, cwd=HARNESS)
         if rc != 0:
